@@ -20,7 +20,7 @@
 (***************************************************************************)
 EXTENDS Naturals, Sequences, FiniteSets, TLC, SequencesExt
 
-Classes == {"a", "amp", "lt", "gt", "quot", "apos", "sp", "tab", "nl", "cr", "cjk", "astral"}
+Classes == {"a", "amp", "lt", "gt", "quot", "apos", "sp", "tab", "nl", "cr", "cjk", "astral", "bom"}
 FormsOf(c) ==
   CASE c = "a"     -> {"lit", "dec", "hex", "cdata"}
     [] c = "amp"   -> {"named", "dec", "hex", "cdata"}
@@ -34,6 +34,7 @@ FormsOf(c) ==
     [] c = "cr"    -> {"dec"}                 \* a literal CR is normalised away by XML itself
     [] c = "cjk"   -> {"lit", "hex"}
     [] c = "astral" -> {"lit", "hex", "cdata"}
+    [] c = "bom"   -> {"lit", "hex"}            \* U+FEFF inside a text: an ordinary character
 
 \* text of a character sequence as the sequence of its classes (the ideal string)
 ClassesOf(chars) == [i \in 1..Len(chars) |-> chars[i].c]
